@@ -145,7 +145,7 @@ func (r *renderer) node(n *Node, level int, comma bool) {
 			r.sb.WriteString(",")
 		}
 	case KRef:
-		r.sb.WriteString(strings.Join(n.Refs, " | "))
+		r.sb.WriteString(n.RefText())
 		r.tail(n, comma, level)
 	default:
 		r.sb.WriteString(n.Lit)
@@ -423,7 +423,7 @@ func oneLine(sb *strings.Builder, n *Node) {
 			note()
 		}
 	case KRef:
-		sb.WriteString(strings.Join(n.Refs, " | "))
+		sb.WriteString(n.RefText())
 		note()
 	default:
 		sb.WriteString(n.Lit)
